@@ -214,7 +214,13 @@ def run(ctx):
         ctx.violation(minimise(f, check_ctl))
         return
 
-    st = ctx.stats
+    f = core.run_random(ctx, random_shard, 4000, 40000)
+    if f is not None:
+        ctx.violation(f)
+
+
+def random_shard(st, shard, nshards, payload):
+    from hypothesis import strategies as hs
     case = hs.fixed_dictionaries({
         'K': km.st_kripke(1, 6),
         'f': fm.st_formula('ctl', max_depth=4),
@@ -239,6 +245,6 @@ def run(ctx):
         st.add_extra('reference_cross_checks')
         return check_ctl(inp)
 
-    f = core.run_hypothesis(ctx, case, body, ctx.pick(1500, 20000))
+    f = core.hyp_run(payload['seed'] * 1000 + shard, case, body, payload['n'])
     if f is not None:
-        ctx.violation(f)
+        st.failure = f
